@@ -258,6 +258,25 @@ func buildCases(thorough bool) []tcase {
 				vt := p.vtype(sp.kind)
 				// literal
 				out = append(out, tcase{query: "query Q " + field(render(value)), form: "literal", pos: p.name, sp: sp, target: target})
+				// the same literal inside a NAMED FRAGMENT (inlined before extraction: the
+				// value is copied between documents first)
+				if target == "root" {
+					out = append(out, tcase{query: "query Q { ...F } fragment F on Query { echo(" + render(value) + ") }", form: "literal in a named fragment", pos: p.name, sp: sp, target: target})
+				} else {
+					out = append(out, tcase{query: "query Q { thing { ...F } } fragment F on Thing { echo(" + render(value) + ") }", form: "literal in a named fragment", pos: p.name, sp: sp, target: target})
+				}
+				// the literal stays a literal when its list / input object also holds a
+				// variable (nothing is extracted): the planner imports it into the
+				// subgraph operation as it is
+				if sp.kind == "string" && (p.name == "input object field" || p.name == "list element") {
+					args := "o: {s: " + value + ", e: $w}"
+					if p.name == "list element" {
+						args = "l: [" + value + ", $w]"
+					}
+					wt := map[string]string{"input object field": "Color", "list element": "String"}[p.name]
+					wv := map[string]any{"input object field": "RED", "list element": "w"}[p.name]
+					out = append(out, tcase{query: "query Q($w: " + wt + ") " + field(args), form: "literal beside a variable", pos: p.name, sp: sp, target: target, vars: map[string]any{"w": wv}})
+				}
 				// variable carrying the same JSON value
 				out = append(out, tcase{query: "query Q($v: " + vt + ") " + field(render("$v")), hasVar: true, form: "variable", pos: p.name, sp: sp, target: target, vars: map[string]any{"__literal": value, "__type": vt}})
 				// variable with default
